@@ -39,7 +39,7 @@ pub struct Run {
     known_hit: Mutex<BTreeMap<String, (u64, String)>>,
     violations: Mutex<Vec<(String, String)>>,
     viol_keys: Mutex<BTreeSet<String>>,
-    pub counters: Mutex<BTreeMap<String, u64>>,
+    pub counters: std::sync::RwLock<std::collections::HashMap<String, AtomicU64>>,
     samples: Mutex<Vec<Value>>,
     caps: Mutex<Vec<String>>,
     watch: Mutex<BTreeMap<usize, (String, Instant)>>,
@@ -188,7 +188,7 @@ impl Run {
             known_hit: Mutex::new(BTreeMap::new()),
             violations: Mutex::new(vec![]),
             viol_keys: Mutex::new(BTreeSet::new()),
-            counters: Mutex::new(BTreeMap::new()),
+            counters: std::sync::RwLock::new(std::collections::HashMap::new()),
             samples: Mutex::new(vec![]),
             caps: Mutex::new(vec![]),
             watch: Mutex::new(BTreeMap::new()),
@@ -232,11 +232,16 @@ impl Run {
     }
 
     pub fn add(&self, counter: &str, n: u64) {
-        *self.counters.lock().unwrap().entry(counter.to_string()).or_insert(0) += n;
+        // fast path: shared lock + atomic add, no allocation
+        if let Some(c) = self.counters.read().unwrap().get(counter) {
+            c.fetch_add(n, Ordering::Relaxed);
+            return;
+        }
+        self.counters.write().unwrap().entry(counter.to_string()).or_insert_with(|| AtomicU64::new(0)).fetch_add(n, Ordering::Relaxed);
     }
 
     pub fn get(&self, counter: &str) -> u64 {
-        self.counters.lock().unwrap().get(counter).copied().unwrap_or(0)
+        self.counters.read().unwrap().get(counter).map(|c| c.load(Ordering::Relaxed)).unwrap_or(0)
     }
 
     pub fn sample(&self, v: Value) {
@@ -304,7 +309,6 @@ impl Run {
                     .name(format!("vshard-{t}"))
                     .stack_size(256 << 20)
                     .spawn_scoped(s, move || loop {
-                        pin_to_cpu(t);
                         let i = next.fetch_add(1, Ordering::Relaxed);
                         if i >= n {
                             break;
@@ -402,7 +406,7 @@ impl Run {
                 "known_findings_hit".into(),
                 json!(kh.iter().map(|(k, (n, _))| json!({"key": k, "cases": n})).collect::<Vec<_>>()),
             );
-            let ctr = self.counters.lock().unwrap().clone();
+            let ctr: BTreeMap<String, u64> = self.counters.read().unwrap().iter().map(|(k, v)| (k.clone(), v.load(Ordering::Relaxed))).collect();
             if !ctr.is_empty() {
                 obj.insert("counters".into(), json!(ctr));
             }
@@ -444,12 +448,15 @@ pub fn threads() -> usize {
         .unwrap_or_else(|| std::thread::available_parallelism().map(|n| n.get()).unwrap_or(4).min(16))
 }
 
-/// Pins the calling thread (and every thread it spawns later: affinity is inherited) to one CPU.
-/// Schedule exploration hands a baton between the worker threads of one shard thousands of
-/// times per second; keeping them on one core turns each hand-off into a plain context switch
-/// instead of a cross-CPU wake-up (an order of magnitude cheaper inside a VM).
-pub fn pin_to_cpu(slot: usize) {
+/// Pins the calling thread (and every thread it spawns later: affinity is inherited) to one CPU,
+/// chosen round-robin; called by the schedule explorer's entry points only.  Schedule
+/// exploration hands a baton between the worker threads of one shard thousands of times per
+/// second; keeping them on one core turns each hand-off into a plain context switch instead of a
+/// cross-CPU wake-up (an order of magnitude cheaper inside a VM).  Ordinary `par_for` threads are
+/// NOT pinned (nested `par_for`s would pile up on the low CPUs).
+pub fn pin_current_thread_once() {
     thread_local! { static PINNED: std::cell::Cell<bool> = const { std::cell::Cell::new(false) }; }
+    static NEXT: AtomicUsize = AtomicUsize::new(0);
     if PINNED.with(|p| p.replace(true)) {
         return;
     }
@@ -457,6 +464,7 @@ pub fn pin_to_cpu(slot: usize) {
         return;
     }
     let ncpu = std::thread::available_parallelism().map(|n| n.get()).unwrap_or(1);
+    let slot = NEXT.fetch_add(1, Ordering::Relaxed);
     // SAFETY: plain libc call on a zero-initialised cpu_set_t owned by this frame.
     unsafe {
         let mut set: libc::cpu_set_t = std::mem::zeroed();
